@@ -39,7 +39,7 @@ type reqRec struct {
 func requestsMode(r *common.Run, sk *sink) {
 	r.SetRule("each case = one 3-host cluster (PRNG: NotifyCommit, store, state machine kind) with 12 goroutines issuing Propose / ReadIndex / config change / RequestSnapshot / QueryRaftLog with timeouts of 1-4 ticks up to 1s, half of the requests released and re-issued at once (pool reuse), under leader isolation, StopShard + restart and final NodeHost.Close under load, with delays injected at the commit-notification and read-index hand-over windows; every accepted request is watched to quiescence; 4 more goroutines call SyncPropose with a context deadline tuned to the running completion latency (the ctx.Done() branch races the result) and require that a completed call carries the id of its own payload; non-trivial = expirations raced with applies, pooled objects were reused, and a stop/close happened with requests in flight; distinct by hash of the per-kind outcome histogram")
 	r.Assume("'never zero results' is decided at quiescence (after StopShard / NodeHost.Close returned), not by wall clock; lateness of Timeout results is only recorded")
-	n := r.Pick(12, 160)
+	n := r.Pick(36, 240)
 	for _, c := range r.MyCases(n) {
 		runRequests(r, sk, c, r.Rand("requests", c), r.SubSeed("requests-seed", c))
 		r.Flush()
